@@ -17,15 +17,27 @@ const c09T0 = int64(1700000000) * 1e9
 
 var c09Key = []byte("t:k")
 
-func c09Name(tag string) []byte { return vsym.Bytes(tag, 1) }
+// element names of 0 or 1 symbolic byte (the empty name is legal)
+func c09Name(tag string) []byte { return vsym.Bytes(tag, vsym.Choose(tag+".len", 2)) }
 
 // distinct symbolic names for the pre-state
-func c09Distinct(n int, tag string) [][]byte {
+func c09Distinct(n int, tag string) [][]byte { return c09DistinctL(n, tag, true) }
+
+func c09DistinctL(n int, tag string, allowEmpty bool) [][]byte {
 	var out [][]byte
 	for i := 0; i < n; i++ {
-		f := c09Name(tag)
+		f := vsym.Bytes(tag, 1)
+		if allowEmpty {
+			f = c09Name(tag)
+		}
 		for _, o := range out {
-			vsym.Assume(f[0] != o[0])
+			if len(f) == len(o) {
+				if len(f) == 0 {
+					vsym.Assume(false)
+				} else {
+					vsym.Assume(f[0] != o[0])
+				}
+			}
 		}
 		out = append(out, f)
 	}
@@ -178,7 +190,7 @@ func Verif_C09_ZSet() {
 	v := vOpenDB()
 	defer v.done()
 	db := v.db
-	pre := c09Distinct(vsym.Choose("npre", 3), "pre")
+	pre := c09DistinctL(vsym.Choose("npre", 3), "pre", vsym.Thorough())
 	for _, m := range pre {
 		_, err := db.ZAdd(c09T0, c09Key, common.ScorePair{Score: c09Score("prescore"), Member: m})
 		vsym.Assert(err == nil, "pre-state ZADD")
